@@ -53,6 +53,11 @@ def gen_sched(r, seed_tag, est_steps=4000, victims=("read", "send", "print", "ma
         s["victim"] = r.choice(list(victims))
     s["p_stall"] = r.choice([0.0, 0.0, 0.05, 0.2])
     s["stall_max"] = r.choice([0.002, 0.15, 0.4, 0.4, 2.5])      # 2.5 s: a thread wedged for a while
+    if s["stall_max"] > 1.0:
+        # long stalls must stay rare or the run crawls (and looks like a livelock)
+        s["p_stall"] = min(s["p_stall"], 0.05)
+        if s.get("policy") == "random":
+            s["p"] = min(s.get("p", 0.05), 0.05)
     return s
 
 
